@@ -152,3 +152,41 @@ Definition bappend (v other : vec) : vec :=
     let b := realloc (buf v) (cap v) both in
     {| cap := c; len := both;
        buf := firstn (N.to_nat (len v)) b ++ abs other ++ skipn (N.to_nat both) b |}.
+
+(* ---- Bytes / String operations on top of the shared ones *)
+Inductive cop :=
+| CV (o : vop)
+| CResize (n x : N)
+| CAppend (other : list N)
+| CSplitAt (mid : N)
+| CString.          (* String::from_ascii(b): len, capacity, is_empty, as_bytes contents *)
+
+Definition dump (v : vec) : list N := [len v; cap v] ++ abs v.
+
+Fixpoint of_pushes (l : list N) (v : vec) : out vec :=
+  match l with
+  | [] => Ret v
+  | x :: r => let* s := vstep v (VPush x) in of_pushes r (fst s)
+  end.
+
+Definition cstep (v : vec) (o : cop) : out (vec * list N) :=
+  match o with
+  | CV o => vstep v o
+  | CResize n x => Ret (bresize v n x, [])
+  | CAppend other => let* ov := of_pushes other vnew in Ret (bappend v ov, [len ov; cap ov])
+  | CSplitAt mid => let* lr := bsplit_at v mid in Ret (v, dump (fst lr) ++ dump (snd lr))
+  | CString => let s := bclone v in Ret (v, [len s; cap s; N.b2n (len s =? 0)] ++ abs (bclone s))
+  end.
+
+Fixpoint crun (ops : list cop) (v : vec) : list N * out unit :=
+  match ops with
+  | [] => (dump v, Ret tt)
+  | o :: rest =>
+    match cstep v o with
+    | Ret (v', ob) => let '(obs, fin) := crun rest v' in (ob ++ obs, fin)
+    | Rev c => ([], Rev c)
+    | Vmp p => ([], Vmp p)
+    | Oof => ([], Oof)
+    end
+  end.
+
